@@ -406,6 +406,25 @@ fn create_file<P1: AsRef<Path>>(
         return Ok(None);
     };
     if !containing_directory.exists() {
+        // Nothing must be created outside of the output directory: check where
+        // the deepest existing ancestor really is (it may go through a symbolic
+        // link) before creating the missing directories
+        let mut existing_ancestor = containing_directory;
+        while !existing_ancestor.exists() {
+            match existing_ancestor.parent() {
+                Some(parent) => existing_ancestor = parent,
+                None => break,
+            }
+        }
+        let existing_ancestor = fs::canonicalize(existing_ancestor)?;
+        if !existing_ancestor.starts_with(output_dir.as_ref()) {
+            eprintln!(
+                " [!] Skipping file \"{}\" because it would be extracted outside of the output directory, in {}",
+                fname,
+                existing_ancestor.display()
+            );
+            return Ok(None);
+        }
         fs::create_dir_all(containing_directory).map_err(|err| {
             eprintln!(
                 " [!] Error while creating output directory path for \"{}\" ({:?})",
